@@ -176,6 +176,7 @@ pub fn classify(msg: &str) -> &'static str {
         ("as an integer", "value"),
         ("chr() parameter", "value"),
         ("is not a single character string", "value"),
+        ("ord(): expected string", "type"),
         ("Cannot .popitem()", "value"),
         ("Operation `.", "attr"),
         ("out of bound", "index"),
@@ -220,6 +221,7 @@ pub fn classify(msg: &str) -> &'static str {
         ("Type of parameter", "type"),
         ("Expected type", "type"),
         ("expected `", "type"),
+        ("Expected `", "type"),
         ("not iterable", "type"),
         ("is not callable", "type"),
         ("Cannot compare", "type"),
